@@ -187,12 +187,12 @@ def _menus():
     for b in (2, 3, 4, 5):
         add("Game2048", f"b{b}", lambda b=b, **k: E.Game2048(board_size=b), board=b)
     from jumanji.environments.logic.graph_coloring.generator import RandomGenerator as GCGen
-    for n, p in ((3, 0.8), (5, 0.3), (8, 0.8), (20, 0.8), (20, 0.3), (6, 0.8), (40, 0.3)):
+    for n, p in ((3, 0.8), (5, 0.3), (8, 0.8), (20, 0.8), (20, 0.3), (6, 0.8), (40, 0.3), (130, 0.1)):
         add("GraphColoring", f"n{n}p{int(p*10)}",
             lambda n=n, p=p, **k: E.GraphColoring(generator=GCGen(num_nodes=n, edge_probability=p)))
     from jumanji.environments.logic.minesweeper.generator import UniformSamplingGenerator as MSGen
     from jumanji.environments.logic.minesweeper.reward import DefaultRewardFn as MSRew
-    for r, c, k_ in ((2, 2, 1), (3, 5, 3), (5, 3, 0), (4, 4, 15), (10, 10, 10), (6, 7, 8)):
+    for r, c, k_ in ((2, 2, 1), (3, 5, 3), (5, 3, 0), (4, 4, 15), (10, 10, 10), (6, 7, 8), (12, 12, 20)):
         add("Minesweeper", f"r{r}c{c}m{k_}",
             lambda r=r, c=c, k_=k_, **k: E.Minesweeper(
                 generator=MSGen(num_rows=r, num_cols=c, num_mines=k_),
@@ -213,7 +213,7 @@ def _menus():
     from jumanji.environments.logic.sliding_tile_puzzle.reward import SparseRewardFn as STSparse
     for g, mv, t, rw in ((3, 50, 7, "dense"), (2, 1, 3, "sparse"), (4, 200, 500, "dense"),
                          (5, 100, 500, "dense"), (3, 0, 2, "dense"), (3, 200, 50, "sparse"),
-                         (2, 50, 1, "dense")):
+                         (2, 50, 1, "dense"), (12, 300, 60, "dense")):
         add("SlidingTilePuzzle", f"g{g}m{mv}t{t}{rw[0]}",
             lambda g=g, mv=mv, t=t, rw=rw, time_limit=None, **k: E.SlidingTilePuzzle(
                 generator=STGen(grid_size=g, num_random_moves=mv),
@@ -260,6 +260,10 @@ def _menus():
                                    obs=25, norm=False, rw="sparse"), gen="random", items=20, ems=60)
     add("BinPack", "csv", bp(lambda: bpg.CSVGenerator(_binpack_csv_path(), max_num_ems=30), obs=30),
         gen="csv")
+    # scale: a footprint of 2.4e9 mm^2 (beyond int32) with fewer observed than stored EMSs
+    add("BinPack", "r10e30o8huge", bp(lambda: bpg.RandomGenerator(10, 30, split_num_same_items=2,
+                                                                   container_dims=(60000, 40000, 5000)), obs=8),
+        gen="random", items=10, ems=30)
     # exact dense/sparse twins (C08)
     add("BinPack", "r10e20s2_sparse", bp(lambda: bpg.RandomGenerator(10, 20, split_num_same_items=2,
                                                                       container_dims=(10, 7, 5)), obs=20, norm=False,
@@ -282,7 +286,7 @@ def _menus():
                                                        reward_fn=BlockDenseReward()), reward="block")
     from jumanji.environments.packing.job_shop import generator as jsg
     add("JobShop", "toy", lambda **k: E.JobShop(generator=jsg.ToyGenerator()))
-    for j, mch, o, d in ((3, 2, 3, 2), (5, 4, 4, 4), (20, 10, 8, 6), (4, 3, 2, 5), (40, 4, 3, 4)):
+    for j, mch, o, d in ((3, 2, 3, 2), (5, 4, 4, 4), (20, 10, 8, 6), (4, 3, 2, 5), (40, 4, 3, 4), (130, 3, 2, 3)):
         add("JobShop", f"j{j}m{mch}o{o}d{d}",
             lambda j=j, mch=mch, o=o, d=d, **k: E.JobShop(generator=jsg.RandomGenerator(j, mch, o, d)),
             jobs=j, machines=mch, ops=o, dur=d)
@@ -290,7 +294,7 @@ def _menus():
     from jumanji.environments.packing.knapsack.reward import DenseReward as KDense
     from jumanji.environments.packing.knapsack.reward import SparseReward as KSparse
     for n, b, rw in ((3, 0.5, "dense"), (10, 2.0, "sparse"), (50, 12.5, "dense"), (10, 2.0, "dense"),
-                     (50, 12.5, "sparse")):
+                     (50, 12.5, "sparse"), (130, 20.0, "dense")):
         add("Knapsack", f"n{n}{rw[0]}",
             lambda n=n, b=b, rw=rw, **k: E.Knapsack(
                 generator=KGen(num_items=n, total_budget=b),
@@ -329,7 +333,7 @@ def _menus():
     # ---- routing
     from jumanji.environments.routing.cleaner.generator import RandomGenerator as CLGen
     for r, c, a, t in ((5, 5, 1, None), (3, 7, 1, 7), (5, 11, 2, 3), (11, 5, 3, 2), (10, 10, 3, None),
-                       (7, 3, 2, 1), (10, 10, 3, 20), (3, 3, 2, None), (5, 11, 2, None)):
+                       (7, 3, 2, 1), (10, 10, 3, 20), (3, 3, 2, None), (5, 11, 2, None), (13, 13, 3, None)):
         add("Cleaner", f"r{r}c{c}a{a}t{t}",
             lambda r=r, c=c, a=a, t=t, time_limit="dflt", **k: E.Cleaner(
                 generator=CLGen(num_rows=r, num_cols=c, num_agents=a),
@@ -344,7 +348,8 @@ def _menus():
             rows=r, cols=c, agents=a, time_limit=t if t is not None else r * c, penalty=pen)
     from jumanji.environments.routing.connector import generator as cng
     for g, a, t, gen in ((5, 2, 7, "rw"), (4, 1, 3, "uni"), (6, 3, 50, "rw"), (10, 10, 50, "rw"),
-                         (6, 3, 2, "uni"), (5, 2, 1, "uni"), (10, 10, 50, "uni"), (8, 4, 50, "rw")):
+                         (6, 3, 2, "uni"), (5, 2, 1, "uni"), (10, 10, 50, "uni"), (8, 4, 50, "rw"),
+                         (12, 48, 50, "rw"), (12, 60, 30, "uni")):
         add("Connector", f"g{g}a{a}t{t}{gen}",
             lambda g=g, a=a, t=t, gen=gen, time_limit=None, **k: E.Connector(
                 generator=(cng.RandomWalkGenerator if gen == "rw" else cng.UniformRandomGenerator)(
@@ -363,7 +368,7 @@ def _menus():
     from jumanji.environments.routing.cvrp.reward import DenseReward as CVDense
     from jumanji.environments.routing.cvrp.reward import SparseReward as CVSparse
     for n, cap, dm, rw in ((3, 5, 5, "dense"), (5, 10, 4, "sparse"), (20, 30, 10, "dense"),
-                           (5, 10, 4, "dense"), (20, 30, 10, "sparse")):
+                           (5, 10, 4, "dense"), (20, 30, 10, "sparse"), (130, 40, 10, "dense")):
         add("CVRP", f"n{n}{rw[0]}",
             lambda n=n, cap=cap, dm=dm, rw=rw, **k: E.CVRP(
                 generator=CVGen(num_nodes=n, max_capacity=cap, max_demand=dm),
@@ -422,7 +427,8 @@ def _menus():
             grid=g, agents=a, food=f, fov=fov, max_level=lvl, coop=coop, grid_obs=grid_obs,
             normalize=norm, penalty=pen, time_limit=t)
     from jumanji.environments.routing.maze import generator as mzg
-    for r, c, t in ((5, 5, 7), (4, 7, None), (5, 8, 3), (8, 5, 2), (10, 10, None), (3, 3, 1), (10, 10, 30)):
+    for r, c, t in ((5, 5, 7), (4, 7, None), (5, 8, 3), (8, 5, 2), (10, 10, None), (3, 3, 1), (10, 10, 30),
+                    (13, 13, None)):
         add("Maze", f"r{r}c{c}t{t}",
             lambda r=r, c=c, t=t, time_limit="dflt", **k: E.Maze(
                 generator=mzg.RandomGenerator(num_rows=r, num_cols=c),
@@ -489,7 +495,8 @@ def _menus():
     from jumanji.environments.routing.tsp.generator import UniformGenerator as TSGen
     from jumanji.environments.routing.tsp.reward import DenseReward as TSDense
     from jumanji.environments.routing.tsp.reward import SparseReward as TSSparse
-    for n, rw in ((5, "dense"), (2, "sparse"), (3, "dense"), (20, "dense"), (20, "sparse"), (5, "sparse")):
+    for n, rw in ((5, "dense"), (2, "sparse"), (3, "dense"), (20, "dense"), (20, "sparse"), (5, "sparse"),
+                  (130, "dense")):
         add("TSP", f"n{n}{rw[0]}", lambda n=n, rw=rw, **k: E.TSP(
             generator=TSGen(num_cities=n), reward_fn=TSDense() if rw == "dense" else TSSparse()),
             cities=n, reward=rw)
